@@ -302,6 +302,10 @@ class Models:
         a, b = deref(a), deref(b)
         if isinstance(a, Sc) and isinstance(b, Sc):
             return ex.binop('Lt', a, b).t
+        if isinstance(a, Enum) and isinstance(b, Enum) and not a.f and not b.f:
+            # derived Ord of a fieldless enum: declaration order
+            ex.force(a); ex.force(b)
+            return z3.BoolVal(ex.prog.disc(a.ename, a.variant) < ex.prog.disc(b.ename, b.variant))
         da = a.data if isinstance(a, StrV) else (a.items if isinstance(a, (VecM, ArrayV)) else None)
         db = b.data if isinstance(b, StrV) else (b.items if isinstance(b, (VecM, ArrayV)) else None)
         if da is None or db is None:
@@ -1110,6 +1114,52 @@ class Models:
                     return StrV(t.data[lo:hi], None)
                 return SliceRef(base, lo, hi - lo)
             raise Unsupported('index with %r' % (idx,))
+
+        # ---------- slice adapters
+        @M.path({'slice'}, ['chunks', 'chunks_exact', 'chunks_mut', 'chunks_exact_mut'])
+        def _chunks(ex, args, info):
+            sl = args[0]
+            if not isinstance(sl, SliceRef):
+                sl = SliceRef(sl, 0, len(sl.load().items))
+            k = args[1].concrete()
+            if k is None or k == 0:
+                raise PanicPath('chunk size must be non-zero', ex.site) if k == 0 else Unsupported('symbolic chunk size')
+            out, i = [], 0
+            while i < sl.n:
+                m_ = min(k, sl.n - i)
+                if m_ < k and info.method.startswith('chunks_exact'):
+                    break
+                out.append(SliceRef(sl.ptr, sl.start + i, m_))
+                i += m_
+            return M.mk_iter(out)
+
+        @M.path({'slice'}, 'split')
+        def _slice_split(ex, args, info):
+            """slice.split(pred): sub-slices between elements matching pred (one fork per element)"""
+            sl, f = args[0], args[1]
+            if not isinstance(sl, SliceRef):
+                sl = SliceRef(sl, 0, len(sl.load().items))
+            out, start = [], 0
+            items = sl.items()
+            for i in range(sl.n):
+                k = ex.call_value(f, [Ptr(Cell(items[i]))])
+                if ex.branch(k.t):
+                    out.append(SliceRef(sl.ptr, sl.start + start, i - start))
+                    start = i + 1
+            out.append(SliceRef(sl.ptr, sl.start + start, sl.n - start))
+            return M.mk_iter(out)
+
+        @M.rx(r'^(?:core::|std::|alloc::)?(?:slice|str)::<impl \[(?:String|&str|std::string::String)\]>::join::<&str>$|^.*\[String\]>::join::<&str>$', 'slice::join')
+        def _join(ex, m, args, callee, dest):
+            sl, sep = args[0], deref(args[1])
+            items = sl.items() if isinstance(sl, SliceRef) else deref(sl).items
+            data = []
+            for i, x in enumerate(items):
+                x = deref(x)
+                if i:
+                    data.extend(sep.data)
+                data.extend(x.data)
+            return StrV(list(data), None)
 
         # ---------- iterators
         @M.trait('IntoIterator', 'into_iter')
